@@ -1,0 +1,37 @@
+//go:build verif
+
+package hotspot
+
+// VerifRuleCtrl describes one traffic shaping controller in force: a copy of its bound rule, the
+// controller object and its statistic metric. Verification builds only.
+type VerifRuleCtrl struct {
+	Rule Rule
+	Ctrl interface{}
+	Stat interface{}
+}
+
+// VerifRuleControllers returns the controllers of res in checking order.
+func VerifRuleControllers(res string) []VerifRuleCtrl {
+	tcMux.RLock()
+	defer tcMux.RUnlock()
+	tcs, ok := tcMap[res]
+	if !ok {
+		return nil
+	}
+	ret := make([]VerifRuleCtrl, 0, len(tcs))
+	for _, tc := range tcs {
+		ret = append(ret, VerifRuleCtrl{Rule: *tc.BoundRule(), Ctrl: tc, Stat: tc.BoundMetric()})
+	}
+	return ret
+}
+
+// VerifRuleResources returns the resources that have an entry in the controller map.
+func VerifRuleResources() []string {
+	tcMux.RLock()
+	defer tcMux.RUnlock()
+	ret := make([]string, 0, len(tcMap))
+	for k := range tcMap {
+		ret = append(ret, k)
+	}
+	return ret
+}
